@@ -627,4 +627,47 @@ def npIndex (a i : PV) : RV :=
   | .arr _, .arr js => (mapM' (fun k => pyIndex a k) js).map .arr
   | _, _ => pyIndex a i
 
+/-! ## NumPy, second instalment (two-dimensional construction and element assignment) -/
+
+/-- `-a` on an int or an integer array of one or two dimensions. -/
+def npNegList : List PV → R (List PV)
+  | [] => .ok []
+  | x :: xs =>
+    match (match x with
+           | .arr row => (mapM' pyNeg row).map PV.arr
+           | y => pyNeg y), npNegList xs with
+    | .ok y, .ok ys => .ok (y :: ys)
+    | .error e, _ => .error e
+    | _, .error e => .error e
+
+def npNeg (a : PV) : RV :=
+  match a with
+  | .arr l => (npNegList l).map .arr
+  | x => pyNeg x
+
+/-- an array of shape `(n,)` or `(n, m)` filled with `c`. -/
+def npFull (c : Int) (shape : PV) : RV :=
+  match shape with
+  | .tup [.int n] => if n < 0 then .error .valueError else .ok (.arr (List.replicate n.toNat (.int c)))
+  | .int n => if n < 0 then .error .valueError else .ok (.arr (List.replicate n.toNat (.int c)))
+  | .tup [.int n, .int m] =>
+    if n < 0 ∨ m < 0 then .error .valueError
+    else .ok (.arr (List.replicate n.toNat (.arr (List.replicate m.toNat (.int c)))))
+  | _ => .error .other
+
+/-- `numpy.ones(shape, dtype=int)`. -/
+def npOnes (shape : PV) : RV := npFull 1 shape
+
+/-- `a[i][j] = x` / `a[i, j] = x` on a two-dimensional integer array, as a new array. -/
+def npSetItem2 (a i j x : PV) : RV :=
+  match a, i.asInt? with
+  | .arr rows, some i =>
+    match normIndex rows.length i with
+    | Option.none => .error .indexError
+    | some r =>
+      match pySetItem (rows.getD r .none) j x with
+      | .error e => .error e
+      | .ok row' => .ok (.arr (rows.set r row'))
+  | _, _ => .error .typeError
+
 end Dsw.Py
